@@ -144,7 +144,9 @@ func genKey(t *rapid.T, s h.RLWESpec, label string) KeySpec {
 	} else {
 		k.LevelQ = rapid.IntRange(0, maxQ).Draw(t, label+"LQ")
 	}
-	if maxP < 0 {
+	// LevelP = -1 (key without auxiliary modulus) is what parameter sets without P use; it is also accepted, and
+	// generated now and then, for parameter sets that have a P.
+	if maxP < 0 || rapid.IntRange(0, 7).Draw(t, label+"LPnone") == 0 {
 		k.LevelP = -1
 	} else if rapid.IntRange(0, 1).Draw(t, label+"LPmax") == 0 {
 		k.LevelP = maxP
@@ -800,6 +802,9 @@ func keyClass(s h.RLWESpec, k KeySpec) string {
 	}
 	if k.LevelP < len(s.P)-1 {
 		lp = "low"
+	}
+	if k.LevelP == -1 {
+		lp = "unused"
 	}
 	if len(s.P) == 0 {
 		lp = "none"
